@@ -60,6 +60,9 @@ func nameStructs(cs *Case) {
 		}
 		if s.K == "struct" {
 			key := s.RType().String()
+			if s.P {
+				key += "+P"
+			}
 			n, ok := names[key]
 			if !ok {
 				n = fmt.Sprintf("C18::T%d", len(names))
